@@ -2,9 +2,9 @@
 EXTENDS Ledger
 CONSTANT Size          \* "quick" | "thorough"
 MCAmounts == IF Size = "quick" THEN {Add(E18, FromInt(7))} ELSE {FromInt(1), Add(E18, FromInt(7))}
-MCTips == IF Size = "quick" THEN {Zero, FromInt(700000000)} ELSE {Zero, FromInt(700000000), Pow10(13)}
+MCTips == {Zero, FromInt(700000000)}
 MCGases == IF Size = "quick" THEN {21000, 9000000} ELSE {21000, 4000000, 9000000}
-MCOpsIn(h) == IF h = 1 THEN 2 ELSE IF Size = "quick" THEN 1 ELSE 2
+MCOpsIn(h) == IF h = 1 THEN 2 ELSE 1
 MCCurve == FromInt(76800)
 \* stand-alone exhaustive check of the recurrence over a grid of parents (ASSUME: evaluated once)
 Bases == {BaseFeeFloor, Add(BaseFeeFloor, One), MulSmall(BaseFeeFloor, 3), Add(Pow10(15), FromInt(12345)), Pow10(18),
